@@ -63,6 +63,49 @@ def cli(code, env, args):
     return out
 
 
+def load_limit_history(ctx, code, rs, name, flags, ref_len):
+    """--limit on a RESUMED session: quit after some pre-terminals (real pcfg_guesser.main, harness/main_driver.py), then
+    `--load` without a limit is the reference and `--load --limit N` must write exactly its first min(N, total) lines
+    (whatever the earlier session already wrote)."""
+    import shutil
+    vio = []
+    sess = "ll_" + name
+    k = ctx.rng.randint(1, 4)
+    r1 = common.run_main_driver(code, ["-r", name, "-s", sess] + flags, quit_after_pops=k)
+    sav = os.path.join(code, sess + ".sav")
+    if r1.get("error") or not os.path.exists(sav) or len(r1["out"]) >= ref_len:
+        return vio, 0                     # the run ended before the quit (nothing to resume)
+    snap = {}
+    for ext in (".sav", ".omn"):
+        fn = os.path.join(code, sess + ext)
+        if os.path.exists(fn):
+            snap[fn] = open(fn, "rb").read()
+
+    def restore():
+        for fn, data in snap.items():
+            with open(fn, "wb") as f:
+                f.write(data)
+    ref = common.run_main_driver(code, ["-r", name, "-s", sess, "--load"])
+    if ref.get("error"):
+        return [{"sig": "C09:resume-raised", "what": "--load failed: %s" % ref["error"], "replay": {"ruleset": rs, "flags": flags, "history": "load-limit", "k": k}}], 0
+    R = ref["out"]
+    runs = 0
+    for n in sorted({1, 2, len(r1["out"]), len(r1["out"]) + 1, max(1, len(R) // 2), len(R), len(R) + 3}):
+        if n < 1:
+            continue
+        restore()
+        got = common.run_main_driver(code, ["-r", name, "-s", sess, "--load", "-n", str(n)])
+        runs += 1
+        if got.get("error") or got["out"] != R[:n] or got.get("stray_stdout"):
+            vio.append({"sig": "C09:limit-count:resumed" if len(got["out"]) != min(n, len(R)) else "C09:limit-content:resumed",
+                        "what": "session quit after %d guesses, resumed with --load --limit %d: wrote %d lines, expected exactly the first %d of "
+                                "the %d an unlimited resume writes%s" % (len(r1["out"]), n, len(got["out"]), min(n, len(R)), len(R),
+                                                                          "; error: %s" % got["error"] if got.get("error") else ""),
+                        "replay": {"ruleset": rs, "flags": flags, "history": "load-limit", "k": k, "n": n}})
+            break
+    return vio, runs
+
+
 def run(ctx):
     nrs = ctx.scale(6, 40)
     sc = common.scratch()
@@ -121,6 +164,9 @@ def run(ctx):
                                     % (nlim, len(rr["out"]), min(nlim, len(ref)), len(ref)),
                             "replay": {"ruleset": rs, "flags": flags, "n": nlim, "mode": "true_prob_order"}})
                 break
+        v, nruns = load_limit_history(ctx, code, rs, name, flags, len(ref))
+        vio += v
+        dist["resumed_limit_runs"] = dist.get("resumed_limit_runs", 0) + nruns
         dist["rulesets"] += 1
         r += 1
         bounds, c = [], 0
@@ -234,7 +280,9 @@ def run(ctx):
         else:
             corr.append(("limit:" + name, True, ""))
     corr.append(("static:no-stdout-print-outside-print_guess", not sites, str(sites[:10])))
-    rule = ("generated rulesets (with Markov levels, all flag combinations); pcfg_guesser.py as a subprocess with stdin kept open; stdout bytes "
+    rule = ("generated rulesets (with Markov levels, all flag combinations); per ruleset a session quit after 1-4 pre-terminals and resumed "
+            "with --load --limit N for 7 values of N against the unlimited resume (real main in-process, harness/main_driver.py); "
+            "pcfg_guesser.py as a subprocess with stdin kept open; stdout bytes "
             "compared with the in-process reference stream for N = 1, total-1, total, total+1, b-1/b/b+1 around sampled cumulative group boundaries "
             "b and points strictly inside groups and Markov levels; honeywords / random_walk line counts; a ruleset that cannot be loaded; static "
             "scan of every print in the guesser; non-trivial = N strictly inside a pre-terminal; distinct by (ruleset, N)")
@@ -250,6 +298,11 @@ def replay(ctx, data):
     if "ruleset" not in inp:
         return []
     rs = inp["ruleset"]
+    if inp.get("history") == "load-limit":
+        code = common.copy_code_tree(common.scratch())
+        rulesets.write_ruleset(rs, os.path.join(code, "Rules", rs["name"]))
+        v, _ = load_limit_history(ctx, code, rs, rs["name"], inp.get("flags", []), 10 ** 9)
+        return v
     code = common.copy_code_tree(common.scratch())
     env = common.subenv()
     env["PYTHONPATH"] = code
